@@ -18,7 +18,7 @@ func defsC20() []*ph.Def {
 	var out []*ph.Def
 	for mode := 0; mode < 3; mode++ {
 		for unknown := 0; unknown < 3; unknown++ {
-			out = append(out, &ph.Def{Mode: mode, Unknown: unknown, Help: "help", HelpAliases: []string{"?"}, Root: ph.CmdDef{Name: "prog", Desc: "determinism",
+			out = append(out, &ph.Def{Mode: mode, Unknown: unknown, Help: "help", HelpAliases: []string{"?", "h"}, Root: ph.CmdDef{Name: "prog", Desc: "determinism",
 				Opts: []ph.OptDef{
 					{Name: "verbose", Kind: ph.Bool, Aliases: []string{"v"}},
 					{Name: "version", Kind: ph.Bool},
@@ -31,8 +31,8 @@ func defsC20() []*ph.Def {
 				ArgCompl: []string{"zarg", "aarg", "marg"},
 				Cmds: []*ph.CmdDef{
 					{Name: "build", Desc: "b", Opts: []ph.OptDef{{Name: "target", Kind: ph.Str, Required: true}, {Name: "arch", Kind: ph.Str, Required: true, ReqMsg: "arch missing"}, {Name: "os", Kind: ph.Str, Required: true}}},
-					{Name: "bundle", Desc: "bu", Cmds: []*ph.CmdDef{{Name: "x1", Desc: "the other x1"}, {Name: "x3"}}}, // x1 exists under two parents
-					{Name: "zap", Desc: "z", Cmds: []*ph.CmdDef{{Name: "x1"}, {Name: "x2"}}},
+					{Name: "bundle", Desc: "bu", Cmds: []*ph.CmdDef{{Name: "x1", Desc: "the other x1"}, {Name: "x3"}}},                                                // x1 exists under two parents
+					{Name: "zap", Desc: "z", Opts: []ph.OptDef{{Name: "host", Kind: ph.Str, Aliases: []string{"h"}}}, Cmds: []*ph.CmdDef{{Name: "x1"}, {Name: "x2"}}}, // `h` is taken over by the help option declared last
 				},
 			}})
 		}
@@ -40,7 +40,7 @@ func defsC20() []*ph.Def {
 	// a second, smaller program: a caller-owned map that already holds entries, option pairs sharing a prefix with
 	// different argument names and suggestions, four environment-bound options whose variables all hold unusable text
 	for mode := 0; mode < 3; mode++ {
-		out = append(out, &ph.Def{Mode: mode, Unknown: 1, Help: "help", Root: ph.CmdDef{Name: "prog", Desc: "determinism 2",
+		out = append(out, &ph.Def{Mode: mode, Unknown: 1, Help: "help", MapLower: true, Root: ph.CmdDef{Name: "prog", Desc: "determinism 2",
 			Opts: []ph.OptDef{
 				{Name: "verbose", Kind: ph.Bool, Aliases: []string{"v"}},
 				{Name: "version", Kind: ph.Bool},
@@ -49,6 +49,7 @@ func defsC20() []*ph.Def {
 				{Name: "e1", Kind: ph.Int, Env: "VERIF_C20_E1"}, {Name: "e2", Kind: ph.Flt, Env: "VERIF_C20_E2"}, {Name: "e3", Kind: ph.Bool, Env: "VERIF_C20_E3"}, {Name: "e4", Kind: ph.IntOpt, Env: "VERIF_C20_E4"},
 				{Name: "time", Kind: ph.Int, ArgName: "seconds"},
 				{Name: "timeout", Kind: ph.Str, ArgName: "duration", Suggested: []string{"1s", "1m"}},
+				{Name: "kv", Kind: ph.Map, Min: 1, Max: 3}, // SetMapKeysToLower is on: keys that differ only in case collide
 			},
 			Cmds: []*ph.CmdDef{{Name: "c1"}, {Name: "c2"}},
 		}})
@@ -75,6 +76,7 @@ var c20Argvs = [][]string{
 	{"--alpha=1", "--beta=2", "--gamma"}, {"c1"}, {"c1", "--alpha=1"}, {"p", "--unk", "c2"}, {"--", "x"}, {"--ver", "--unk"},
 	{"--defs", "a=b"}, {"--time", "5", "--timeout", "1s"}, {"--tim", "5"},
 	{"help", "x1"}, {"help", "x3"}, {"bundle", "help", "x1"}, {"help", "nosuch"},
+	{"--kv", "Level=debug", "LEVEL=info", "level=x"}, {"--kv", "A=1", "--kv", "a=2"}, {"zap", "x1", "-h"}, {"zap", "-h"}, {"zap", "-h", "v", "x2"},
 }
 
 // environment of every C20 case: several bound variables hold unusable text at the same time
@@ -157,7 +159,7 @@ func init() {
 	register(&Check{
 		ID:        "C20",
 		QuickSecs: 150, ThoroSecs: 1500,
-		Rule: "exploration of hidden nondeterminism: Go's randomised map iteration is replaced (build-time instrumentation of all 22 map ranges of the library) by an explorer-chosen rotation of the sorted key order; for 14 definitions with >= 2 entries in every internal table (options, aliases, commands, suggestions, required options) x 50 argv and 21 COMP_LINE texts, four environment-bound options whose variables all hold unusable text, provoking several simultaneous diagnostics, " +
+		Rule: "exploration of hidden nondeterminism: Go's randomised map iteration is replaced (build-time instrumentation of all 22 map ranges of the library) by an explorer-chosen rotation of the sorted key order; for 14 definitions with >= 2 entries in every internal table (options, aliases, commands, suggestions, required options) x 55 argv and 21 COMP_LINE texts, four environment-bound options whose variables all hold unusable text, provoking several simultaneous diagnostics, " +
 			"every execution with <= d non-default rotations is run (bounded-deviation DFS over the range executions) and its complete observation vector (values, remaining, error text, warnings, dispatch result, help text, completion list) must be identical to the default-order run; additionally the same case is run twice with the native map order; " +
 			"states = choice points visited, transitions = range executions, distinct_nontrivial = cases whose execution has at least one order choice point",
 		Assume: []string{"iteration orders are rotations of the sorted key order (every element comes first under some rotation); other permutations are not explored", "definitions and inputs outside the stated lists are not covered"},
